@@ -1,28 +1,247 @@
 import NeumannModel.KV.Lemmas
 /-
   C11 — concurrent store operations behave as if executed one at a time.
+
+  `runSched walOn progs sched` (Model.lean) interprets the interleaving `sched` (the thread that
+  takes each successive ATOMIC STEP) of the thread programs `progs`; its `hist` lists the completed
+  operations with result and the step numbers of their first (`inv`) and last (`ret`) step.
+  `Linearizable` = some permutation of the history is a legal execution of the key→value
+  specification and never orders `a` before `b` when `b` returned before `a` was invoked.
 -/
 namespace Neumann.KV.Props
 open Neumann.KV
 
-/-- FULL STATEMENT for `emb:` keys (false of the code as it is, see `emb_mixture_witness`). -/
-def EmbLinearizable : Prop :=
-  ∀ (walOn : Bool) (progs : List ThreadProgram) (sched : List Nat),
-    Linearizable (runSched walOn progs sched).hist
+/-! ### single-step operations: every key class except `emb:`, without the durable log -/
 
-/-- FULL STATEMENT for durable writes (false of the code as it is, see `durable_order_witness`):
-    once every thread has finished, the store recovered from the log shows every key exactly as
-    the in-memory store does. -/
+/-- FULL STRENGTH, every number of threads, every program, every schedule: when every operation is
+    a single atomic step (put/get/delete/exists on plain, graph, table and cache keys, every scan,
+    durable forms of cache keys), then the history IN STEP ORDER is a legal sequential execution
+    with every result exactly the specification's (`SeqStrict`, hence `SeqValid`); the step order
+    respects real time (each operation is invoked and returns at its one step; the history is
+    strictly increasing in it); the final store is the specification applied in step order
+    (`Abs`); so the history is linearizable. -/
+theorem single_step_ops_linearizable (walOn : Bool) (progs : List ThreadProgram) (sched : List Nat)
+    (h : ∀ p ∈ progs, ∀ op ∈ p, op.singleStep) :
+    let r := runSched walOn progs sched
+    SeqStrict [] r.hist ∧ SeqValid [] r.hist ∧
+    (∀ x ∈ r.hist, x.inv = x.ret) ∧ r.hist.Pairwise (fun a b => a.ret < b.inv) ∧
+    RespectsRealTime r.hist ∧
+    Abs r.store (specRun [] (r.hist.map (·.op))) ∧
+    Linearizable r.hist := by
+  have inv : Inv (runSched walOn progs sched) := (Inv.init walOn progs h).run sched
+  obtain ⟨order, hperm, hvalid, hrt⟩ := inv.linearizable
+  refine ⟨inv.strict, inv.strict.valid, fun x hx => (inv.times x hx).1, inv.sorted, ?_, inv.abs,
+    inv.linearizable⟩
+  refine List.Pairwise.imp_of_mem ?_ inv.sorted
+  intro a b ha hb hab hba
+  have := (inv.times a ha).1
+  have := (inv.times b hb).1
+  omega
+
+/-- non-vacuity: four threads on contended plain / graph / table / cache keys, an interleaved
+    schedule, 8 completed operations; the reads see the other threads' writes -/
+example :
+    (∀ p ∈ ([[.put ⟨.plain, 1⟩ ⟨1, .none⟩, .get ⟨.cache, 1⟩], [.get ⟨.plain, 1⟩, .delete ⟨.plain, 1⟩],
+        [.put ⟨.cache, 1⟩ ⟨2, .good 2⟩, .scan none], [.exists_ ⟨.plain, 1⟩, .put ⟨.graph, 2⟩ ⟨3, .none⟩]]
+        : List ThreadProgram), ∀ op ∈ p, op.singleStep) ∧
+    (runSched false [[.put ⟨.plain, 1⟩ ⟨1, .none⟩, .get ⟨.cache, 1⟩], [.get ⟨.plain, 1⟩, .delete ⟨.plain, 1⟩],
+        [.put ⟨.cache, 1⟩ ⟨2, .good 2⟩, .scan none], [.exists_ ⟨.plain, 1⟩, .put ⟨.graph, 2⟩ ⟨3, .none⟩]]
+        [0, 1, 2, 3, 2, 0, 3, 1]).hist.map (·.res)
+      = [.ok, .found ⟨1, .none⟩, .ok, .bool true, .keys [⟨.plain, 1⟩, ⟨.cache, 1⟩],
+         .found ⟨2, .good 2⟩, .ok, .ok] := by decide
+
+/-- a scan with the prefix of ONE class (`user:`, `node:`, `table:`, `_cache:`; also `emb:` and ""
+    while no `emb:` key is in use) is one atomic step: in any run of single-step operations it
+    returns exactly the keys of that class present in the specification state at its step.
+    (`MetadataSlab::scan` with a non-empty prefix reads one shard under one read lock; the
+    entity-index and cache-ring reads that follow in `SlabRouter::scan` have no yield hook between
+    them — at the granularity of the hooks the whole scan is one step.) -/
+theorem scan_atomic_for_single_class_prefix (walOn : Bool) (progs : List ThreadProgram)
+    (sched : List Nat) (h : ∀ p ∈ progs, ∀ op ∈ p, op.singleStep)
+    (pre : List OpRec) (x : OpRec) (post : List OpRec) (c : Option KeyClass) (ks : List Key)
+    (hx : (runSched walOn progs sched).hist = pre ++ x :: post)
+    (hop : x.op = .scan c) (hres : x.res = .keys ks) :
+    x.inv = x.ret ∧
+    ∀ k, k ∈ ks ↔ (pmatch c k = true ∧ (aget (specRun [] (pre.map (·.op))) k).isSome = true) := by
+  have inv : Inv (runSched walOn progs sched) := (Inv.init walOn progs h).run sched
+  have hstrict := inv.strict
+  rw [hx] at hstrict
+  have hmem : x ∈ (runSched walOn progs sched).hist := by rw [hx]; simp
+  refine ⟨(inv.times x hmem).1, ?_⟩
+  have : SeqStrict [] ((pre ++ [x]) ++ post) := by simpa using hstrict
+  have h1 : SeqStrict [] (pre ++ [x]) := by
+    clear hx hmem hstrict
+    generalize ([] : Spec) = σ at this
+    induction pre generalizing σ with
+    | nil => exact ⟨this.1, trivial⟩
+    | cons a l ih => exact ⟨this.1, ih _ this.2⟩
+  have h2 := ((seqStrict_append _ _ _).mp h1).2
+  rw [hop, hres] at h2
+  simp only [specRes, specStep, resEquiv] at h2
+  intro k
+  constructor
+  · intro hk
+    have := h2.1 hk
+    simpa [List.mem_filter, mem_keys_iff, and_comm] using this
+  · intro hk
+    apply h2.2
+    simpa [List.mem_filter, mem_keys_iff, and_comm] using hk
+
+/-- in ANY legal sequential execution (hence in any linearization of any history) a `get` that
+    finds a value finds one that some put of that key wrote: "a read never returns a value that
+    was never written, or a mixture of two writes" is a consequence of linearizability -/
+theorem linearizable_read_returns_written_value (recs : List OpRec) (hl : Linearizable recs)
+    (r : OpRec) (hr : r ∈ recs) (k : Key) (v : Val) (hop : r.op = .get k) (hres : r.res = .found v) :
+    ∃ w ∈ recs, w.op = .put k v ∨ w.op = .putD k v := by
+  obtain ⟨order, hperm, hvalid, _⟩ := hl
+  rcases seqValid_get_written hvalid (hperm.mem_iff.mpr hr) hop hres with h | ⟨w, hw, hw'⟩
+  · simp [aget] at h
+  · exact ⟨w, hperm.mem_iff.mp hw, hw'⟩
+
+/-! ### `emb:` keys: three atomic steps per operation -/
+
+/-- FULL STATEMENT (false of the code as it is, see `emb_mixture_witness`): every history of
+    every interleaving of operations of every key class is linearizable. -/
+def EmbLinearizable : Prop :=
+  ∀ (progs : List ThreadProgram) (sched : List Nat),
+    (∀ p ∈ progs, ∀ op ∈ p, op.nonDurable = true) →
+    Linearizable (runSched false progs sched).hist
+
+/-- the interleaving `embMixtureSched` of two `put emb:1` and one `get emb:1`
+    (A index, B index, A vector, C index.get, C embeddings.get, B vector, A metadata, B metadata,
+    C metadata.get): the get returns the metadata of put B with the vector of put A. -/
+theorem emb_mixture_witness :
+    (runSched false embMixtureProgs embMixtureSched).hist =
+      [⟨0, 0, .put kE1 ⟨1, .good 1⟩, .ok, 0, 6⟩, ⟨1, 0, .put kE1 ⟨2, .good 2⟩, .ok, 1, 7⟩,
+       ⟨2, 0, .get kE1, .found ⟨2, .good 1⟩, 3, 8⟩] ∧
+    ¬ Linearizable (runSched false embMixtureProgs embMixtureSched).hist ∧
+    ¬ EmbLinearizable := by
+  have hh : (runSched false embMixtureProgs embMixtureSched).hist =
+      [⟨0, 0, .put kE1 ⟨1, .good 1⟩, .ok, 0, 6⟩, ⟨1, 0, .put kE1 ⟨2, .good 2⟩, .ok, 1, 7⟩,
+       ⟨2, 0, .get kE1, .found ⟨2, .good 1⟩, 3, 8⟩] := by decide
+  have hn : ¬ Linearizable (runSched false embMixtureProgs embMixtureSched).hist := by
+    intro hl
+    rw [hh] at hl
+    obtain ⟨w, hw, hw'⟩ := linearizable_read_returns_written_value _ hl
+      ⟨2, 0, .get kE1, .found ⟨2, .good 1⟩, 3, 8⟩ (by simp) kE1 ⟨2, .good 1⟩ rfl rfl
+    revert w
+    decide
+  exact ⟨hh, hn, fun h => hn (h embMixtureProgs embMixtureSched (by decide))⟩
+
+/-- PARTIAL.  What is missing: the general statement "every history in which no two operations on
+    the same `emb:` key overlap is linearizable" (any programs, any schedule) is NOT proved.
+    What is proved: the three-step `emb:` operations of one thread running alone (no overlapping
+    operation at all) return exactly the specification's results, for EVERY pair of values (all
+    three shapes of `_embedding`: absent, slab dimension, other dimension) — put, get (vector path
+    and metadata fallback), overwrite, exists, delete, get / exists after delete. -/
+theorem emb_linearizable_partial (v1 v2 : Val) :
+    ((runSched false [[.put kE1 v1, .get kE1, .put kE1 v2, .get kE1, .exists_ kE1, .delete kE1,
+        .get kE1, .exists_ kE1]] (List.replicate 20 0)).hist.map (·.res))
+      = [.ok, .found v1, .ok, .found v2, .bool true, .ok, .notFound, .bool false] := by
+  rcases v1 with ⟨t1, (_|a|a)⟩ <;> rcases v2 with ⟨t2, (_|b|b)⟩ <;>
+    simp [runSched, runFrom, initSys, List.replicate, step, stepOp, routerPut, routerGet, routerDelete,
+      existsNow, mdGet, idxGetOrCreate, idxGet, idxGetAux, idxRemove, slabPut, aset, aerase, aget, kE1]
+
+/-! ### durable writes: log under the mutex, apply after it -/
+
+/-- FULL STATEMENT (false of the code as it is, see `durable_order_witness`): for durable writers,
+    once every thread has finished, the store recovered from the log shows every key (get, exists,
+    membership in scan) exactly as the in-memory store does. -/
 def DurableOrderEqMemoryOrder : Prop :=
   ∀ (progs : List ThreadProgram) (sched : List Nat),
     (∀ p ∈ progs, ∀ op ∈ p, op.simpleDurablePut = true) →
     quiescent (runSched true progs sched) = true →
     ∀ k, view (recover (runSched true progs sched).store.wal) k = view (runSched true progs sched).store k
 
-theorem durable_order_witness : ¬ DurableOrderEqMemoryOrder := by
+/-- A logs, B logs, B applies, A applies: the log ends with B's record, memory with A's value. -/
+theorem durable_order_witness :
+    (runSched true durableOrderProgs durableOrderSched).store.wal
+      = [.metaSet kP1 ⟨1, .none⟩, .metaSet kP1 ⟨2, .none⟩] ∧
+    view (runSched true durableOrderProgs durableOrderSched).store kP1 = (.found ⟨1, .none⟩, true, true) ∧
+    view (recover (runSched true durableOrderProgs durableOrderSched).store.wal) kP1
+      = (.found ⟨2, .none⟩, true, true) ∧
+    ¬ DurableOrderEqMemoryOrder := by
+  refine ⟨by decide, by decide, by decide, ?_⟩
   intro h
   have := h durableOrderProgs durableOrderSched (by decide) (by decide) kP1
   revert this
   decide
+
+/-- THE REPAIRED `put_durable` (proposed/C11-durable-apply-under-log-mutex.diff: the log mutex is
+    held from the log step to the end of the in-memory apply; `runLocked` = `runSched` in which a
+    thread about to log while another holds the mutex does not move).  For every number of durable
+    writers of ANY, also the same, plain / graph / table keys (vector-free values) and every
+    lock-respecting interleaving: once every thread has finished, the store recovered from the log
+    shows every key exactly as memory does.  The witness interleaving of `durable_order_witness`
+    is not executable under the mutex (thread B cannot log between A's log and A's apply). -/
+theorem durable_order_eq_memory_order_when_apply_under_log_mutex
+    (progs : List ThreadProgram) (sched : List Nat)
+    (h : ∀ p ∈ progs, ∀ op ∈ p, op.simpleDurablePut = true)
+    (hq : quiescent (runLocked true progs sched) = true) :
+    ∀ k, view (recover (runLocked true progs sched).store.wal) k
+       = view (runLocked true progs sched).store k := by
+  have inv : LInv (runLocked true progs sched) := (LInv.init progs h).run sched
+  intro k
+  refine view_of_shape (recover _) _ k inv.rshape inv.shape (inv.idle k ?_)
+  intro i th v hi hp
+  have hmem := List.mem_of_getElem? hi
+  simp only [quiescent, List.all_eq_true, List.isEmpty_iff] at hq
+  obtain ⟨_, rest, hr⟩ := hp
+  rw [hq th hmem] at hr
+  cases hr
+
+/-- non-vacuity: the two contended writers of the witness; under the mutex the schedule
+    A-log, B-log(blocked), B(blocked), A-apply, B-log, B-apply finishes with log order = apply order -/
+example :
+    quiescent (runLocked true durableOrderProgs [0, 1, 1, 0, 1, 1]) = true ∧
+    (runLocked true durableOrderProgs [0, 1, 1, 0, 1, 1]).store.wal
+      = [.metaSet kP1 ⟨1, .none⟩, .metaSet kP1 ⟨2, .none⟩] ∧
+    (runLocked true durableOrderProgs [0, 1, 1, 0, 1, 1]).store.md = [(kP1, ⟨2, .none⟩)] := by decide
+
+/-- PARTIAL (what is missing: two threads writing the SAME key, see `durable_order_witness`; values
+    with an `_embedding`, `emb:` keys and `delete_durable`): for every number of durable writers,
+    every program of vector-free `put_durable`s on plain / graph / table keys and EVERY interleaving
+    of their log and apply steps, if no key is written by two different threads then, once every
+    thread has finished, the store recovered from the log shows every key (get, exists, scan
+    membership) exactly as memory does — in every reachable state the replayed log equals memory on
+    every key but those of writes logged and not yet applied (`DInv`). -/
+theorem durable_order_partial (progs : List ThreadProgram) (sched : List Nat)
+    (h : ∀ p ∈ progs, ∀ op ∈ p, op.simpleDurablePut = true) (ho : KeysOwned progs)
+    (hq : quiescent (runSched true progs sched) = true) :
+    ∀ k, view (recover (runSched true progs sched).store.wal) k
+       = view (runSched true progs sched).store k := by
+  have inv : DInv (runSched true progs sched) := (DInv.init progs h ho).run sched
+  intro k
+  refine view_of_shape (recover _) _ k inv.rshape inv.shape (inv.idle k ?_)
+  intro i th v hi hp
+  have hmem := List.mem_of_getElem? hi
+  simp only [quiescent, List.all_eq_true, List.isEmpty_iff] at hq
+  obtain ⟨_, rest, hr⟩ := hp
+  rw [hq th hmem] at hr
+  cases hr
+
+/-- non-vacuity: three writers (one writes its key twice), keys owned, an interleaving in which
+    the log order of the three keys differs from their apply order; it reaches quiescence -/
+example :
+    (∀ p ∈ ([[.putD ⟨.plain, 1⟩ ⟨1, .none⟩, .putD ⟨.plain, 1⟩ ⟨4, .none⟩], [.putD ⟨.graph, 1⟩ ⟨2, .none⟩],
+        [.putD ⟨.table, 1⟩ ⟨3, .none⟩]] : List ThreadProgram), ∀ op ∈ p, op.simpleDurablePut = true) ∧
+    quiescent (runSched true [[.putD ⟨.plain, 1⟩ ⟨1, .none⟩, .putD ⟨.plain, 1⟩ ⟨4, .none⟩],
+        [.putD ⟨.graph, 1⟩ ⟨2, .none⟩], [.putD ⟨.table, 1⟩ ⟨3, .none⟩]] [0, 1, 2, 2, 1, 0, 0, 0]) = true ∧
+    (runSched true [[.putD ⟨.plain, 1⟩ ⟨1, .none⟩, .putD ⟨.plain, 1⟩ ⟨4, .none⟩],
+        [.putD ⟨.graph, 1⟩ ⟨2, .none⟩], [.putD ⟨.table, 1⟩ ⟨3, .none⟩]] [0, 1, 2, 2, 1, 0, 0, 0]).store.md
+      = [(⟨.plain, 1⟩, ⟨4, .none⟩), (⟨.graph, 1⟩, ⟨2, .none⟩), (⟨.table, 1⟩, ⟨3, .none⟩)] := by decide
+
+example : KeysOwned [[.putD ⟨.plain, 1⟩ ⟨1, .none⟩, .putD ⟨.plain, 1⟩ ⟨4, .none⟩],
+    [.putD ⟨.graph, 1⟩ ⟨2, .none⟩], [.putD ⟨.table, 1⟩ ⟨3, .none⟩]] := by
+  intro i j pi pj hi hj hij a ha b hb
+  match i, j with
+  | 0, 0 | 1, 1 | 2, 2 => exact absurd rfl hij
+  | 0, 1 | 0, 2 | 1, 0 | 1, 2 | 2, 0 | 2, 1 =>
+    simp only [List.getElem?_cons_zero, List.getElem?_cons_succ, Option.some.injEq] at hi hj
+    subst hi hj
+    revert hb; revert b; revert ha; revert a
+    decide
+  | _ + 3, _ => simp at hi
+  | 0, _ + 3 | 1, _ + 3 | 2, _ + 3 => simp at hj
 
 end Neumann.KV.Props
